@@ -78,10 +78,11 @@ func buildProofs(c tokCase, rnd *rand.Rand) cashu.Proofs {
 		if c.Wit {
 			p.Witness = `{"signatures":["` + hexN(rnd, 64) + `"]}`
 		}
-		switch c.Dleq {
-		case "es":
+		switch {
+		case c.Dleq == "es":
 			p.DLEQ = &cashu.DLEQProof{E: hexN(rnd, 32), S: hexN(rnd, 32)}
-		case "esr":
+		case c.Dleq == "esr", c.Dleq == "esr-even" && i%2 == 0, c.Dleq == "esr-odd" && i%2 == 1:
+			// esr-even / esr-odd: a list in which only some proofs carry a DLEQ (restored next to freshly minted ones)
 			p.DLEQ = &cashu.DLEQProof{E: hexN(rnd, 32), S: hexN(rnd, 32), R: hexN(rnd, 32)}
 		}
 		proofs[i] = p
@@ -151,16 +152,27 @@ func runRoundTrip(c tokCase, rnd *rand.Rand) (actual, detail string) {
 	if len(got) != len(want) {
 		return "mismatch:count", fmt.Sprintf("%d vs %d", len(got), len(want))
 	}
-	keep := c.Incl && c.Dleq != "none"
+	// DLEQ is kept exactly when requested: every proof that had one comes back with the same (e, s, r), every other without
+	keep := c.Incl
 	a, b := make([]string, len(got)), make([]string, len(want))
+	nWant, nGot := 0, 0
 	for i := range got {
 		if !keep && got[i].DLEQ != nil {
 			return "mismatch:dleq-not-stripped", ""
 		}
-		if keep && got[i].DLEQ == nil {
-			return "mismatch:dleq-lost", ""
+		if got[i].DLEQ != nil {
+			nGot++
+		}
+		if want[i].DLEQ != nil {
+			nWant++
 		}
 		a[i], b[i] = proofKey(got[i], keep), proofKey(want[i], keep)
+	}
+	if keep && nGot < nWant {
+		return "mismatch:dleq-lost", fmt.Sprintf("%d of %d", nGot, nWant)
+	}
+	if keep && nGot > nWant {
+		return "mismatch:dleq-invented", fmt.Sprintf("%d of %d", nGot, nWant)
 	}
 	sort.Strings(a)
 	sort.Strings(b)
